@@ -1461,8 +1461,8 @@ def weave_tree(repo, out, extra_modules=None, contracts_dir=CONTRACTS, vacuity=F
             raise WeaveError("executable token stream of %s changed by weaving" % rel)
         if rel == "src/lib.rs":
             woven = ("#![allow(unused_imports, unused_variables, unused_mut, dead_code, unused_parens, unused_braces, non_snake_case)]\n"
-                     "#![feature(allocator_api)]\nuse vstd::prelude::*;\n" + woven)
-            shift = 3
+                     "#![feature(allocator_api)]\n#![feature(pattern)]\nuse vstd::prelude::*;\n" + woven)
+            shift = 4
         else:
             shift = 0
         dst = os.path.join(out, rel)
